@@ -353,7 +353,7 @@ def gen_recipes(ctx):
     R.append([dict(E, out="a.cool", widths=[[7]], chunks=[[[0, 0, 4]]])])
     R.append([dict(E, out="a.cool", symm=False, chunks=[[[i, j, 1 + i + j] for i in range(4) for j in range(4)]])])
     # --- singles
-    for _ in range(40 * mul):
+    for _ in range(30 * mul):
         R.append([G.gen_create(rng, "a.cool")])
     for _ in range(10 * mul):
         R.append([G.gen_create(rng, "a.cool", group=rng.choice(["x", "x/y", "resolutions/5"]), big=True)])
@@ -444,9 +444,9 @@ def gen_recipes(ctx):
         s5 = {"op": "zoomify", "out": "z.mcool", "inputs": [["x.cool", ""]], "resolutions": [b, 2 * b, 4 * b], "base_resolutions": [b],
               "chunksize": rng.choice([2, 100]), "opts": {"columns": ["count", "w"]}}
         R.append([s1, s2, s3, s4, s5])
-    for _ in range(12 * mul):
-        R.append([G.gen_load(rng, "l.cool")])
     for _ in range(10 * mul):
+        R.append([G.gen_load(rng, "l.cool")])
+    for _ in range(6 * mul):
         R.append([G.gen_cload(rng, "p.cool")])
     for _ in range(8 * mul):
         widths = G.rand_widths(rng)
@@ -459,7 +459,7 @@ def gen_recipes(ctx):
             cells[name] = G.rand_records(rng, sorted(G.rand_cells(rng, n, symm)))
         R.append([{"op": "scool", "out": "s.scool", "widths": widths, "symm": symm, "cells": cells}])
     # --- merges
-    for _ in range(25 * mul):
+    for _ in range(18 * mul):
         widths = G.rand_widths(rng)
         symm = rng.random() < 0.7
         k = rng.randint(2, 3)
@@ -468,14 +468,14 @@ def gen_recipes(ctx):
                       "mergebuf": rng.choice([1, 2, 3, 5, 1000])})
         R.append(steps)
     # --- coarsen
-    for _ in range(30 * mul):
+    for _ in range(22 * mul):
         widths = G.rand_widths(rng, maxbins=8)
         st = G.gen_create(rng, "b.cool", widths=widths, kind=rng.choice(["frame", "ordered"]))
         same = rng.random() < 0.3
         R.append([st, {"op": "coarsen", "out": "b.cool" if same else "c.cool", "group": "k" if same else "", "in": ["b.cool", ""],
                        "factor": rng.choice([2, 2, 3, 5]), "chunksize": rng.choice([1, 2, 3, 7, 1000])}])
     # --- zoomify
-    for _ in range(12 * mul):
+    for _ in range(10 * mul):
         widths = G.rand_widths(rng, fixed=True, maxbins=9)
         b = fixed_size(widths) or 1
         st = G.gen_create(rng, "b.cool", widths=widths, kind="frame")
@@ -483,7 +483,7 @@ def gen_recipes(ctx):
         R.append([st, {"op": "zoomify", "out": "z.mcool", "inputs": [["b.cool", ""]], "resolutions": [b] + res,
                        "base_resolutions": [b], "chunksize": rng.choice([1, 2, 5, 1000])}])
     # --- histories of length 3..4 and several collections in one file
-    for _ in range(20 * mul):
+    for _ in range(15 * mul):
         widths = G.rand_widths(rng, fixed=True, maxbins=8)
         b = fixed_size(widths) or 1
         symm = rng.random() < 0.7
